@@ -27,7 +27,6 @@ import (
 	"flag"
 	"fmt"
 	"go/ast"
-	"go/parser"
 	"go/printer"
 	"go/token"
 	"go/types"
@@ -35,6 +34,8 @@ import (
 	"path/filepath"
 	"strconv"
 	"strings"
+
+	"gtverif/internal/srcset"
 )
 
 var kindNames = map[types.BasicKind]string{
@@ -199,31 +200,34 @@ func (x *xl) body(stmts []ast.Stmt, tv string) string {
 }
 
 func renderExpr(repo string) (string, string, error) {
-	fset := token.NewFileSet()
 	dir := filepath.Join(repo, "gencommon")
-	pkgs, err := parser.ParseDir(fset, dir, func(fi os.FileInfo) bool { return !strings.HasSuffix(fi.Name(), "_test.go") }, 0)
+	// the package's file set as the compiler selects it: a second ExtractTypeRef behind a build
+	// constraint, or none in the files that take part in the build, is an error
+	pkg, err := srcset.Load(dir)
 	if err != nil {
 		return "", "", err
 	}
+	fset := pkg.Fset
 	x := &xl{fset: fset, funcs: map[string]*ast.FuncDecl{}}
-	var target *ast.FuncDecl
-	for _, pk := range pkgs {
-		for _, f := range pk.Files {
-			for _, d := range f.Decls {
-				fd, ok := d.(*ast.FuncDecl)
-				if !ok || fd.Body == nil {
-					continue
-				}
-				if fd.Name.Name == "ExtractTypeRef" {
-					target = fd
-				} else {
-					x.funcs[fd.Name.Name] = fd
-				}
+	target, err := pkg.FuncDecl("ImportHandler", "ExtractTypeRef")
+	if err != nil {
+		return "", "", err
+	}
+	dup := map[string]bool{}
+	for _, f := range pkg.Files {
+		for _, d := range f.Decls {
+			fd, ok := d.(*ast.FuncDecl)
+			if !ok || fd.Body == nil || fd == target {
+				continue
 			}
+			if _, seen := x.funcs[fd.Name.Name]; seen {
+				dup[fd.Name.Name] = true // two helpers of one name (function and method): not followed
+			}
+			x.funcs[fd.Name.Name] = fd
 		}
 	}
-	if target == nil {
-		return "", "", fmt.Errorf("ExtractTypeRef not found in %s", dir)
+	for n := range dup {
+		delete(x.funcs, n)
 	}
 	fd := target
 	{
